@@ -115,9 +115,12 @@ def sweep(h, typ, ops, checks, tier):
                             bad = p
                             break
                     h.ensure("operand-region-unchanged", bad is None, detail=f"{where}: operand {nm} changed at {bad}")
-                    h.ensure("operand-area-unchanged", IntegrateShape.area(S0) == f0, detail=f"{where}: operand {nm} area {f0} -> {IntegrateShape.area(S0)}")
+                    a1 = IntegrateShape.area(S0)
+                    same = (a1 == f0) if typ != "float" else abs(float(a1) - float(f0)) <= 1e-9 * (1 + abs(float(f0)))
+                    h.ensure("operand-area-unchanged", same, detail=f"{where}: operand {nm} area {f0} -> {a1}")
                     h.ensure("operand-still-well-formed", not well_formed(S0), detail=f"{where}: {well_formed(S0)[:2]}")
-                    h.ensure("live-operand-answers-like-deep-copy", float(S0) == float(_copy.deepcopy(S0)) and all(float(j) == float(_copy.deepcopy(j)) for j in S0.jordans), detail=f"{where}: operand {nm}")
+                    close = lambda u, v: abs(u - v) <= 1e-9 * (1 + abs(v))
+                    h.ensure("live-operand-answers-like-deep-copy", close(float(S0), float(_copy.deepcopy(S0))) and all(close(float(j), float(_copy.deepcopy(j))) for j in S0.jordans), detail=f"{where}: operand {nm}")
                 if isinstance(R, DefinedShape):
                     shared = coords_of(R) & coords_of(SA, SB)
                     h.ensure("result-shares-no-point-object-with-operands", not shared, detail=f"{where}: {len(shared)} shared Point2D objects")
